@@ -74,17 +74,19 @@ theorem C15_nokey (R : BlockRSA) (rnd : Nat → Nat) (pad : Int) (p : Bytes) :
     encrypt false R rnd pad p = .err ∧ decrypt false R p = .err := by
   simp [encrypt, decrypt]
 
-/-- For every policy of the `policies` map and every key size (in bytes) its
-    constructor accepts: the block size `Encrypt` uses is positive (the loop
-    makes progress: no panic, no endless loop), is within what the RSA scheme
-    can take (RFC 8017 — so `rsa.EncryptOAEP/EncryptPKCS1v15` never refuse a
-    block), and it is the `PlaintextBlockSize()` the channel pads to. -/
-theorem C15_capacity (row : AsymRow) (hr : row ∈ Gen.asymRows) (hs : row.scheme ≠ .none) (k : Int)
-    (hacc : row.accept false 0 true k = true) :
-    0 < k - row.encPad ∧ k - row.encPad ≤ Spec.capacity row.scheme k ∧ row.ptPad = row.encPad := by
+/-- For every policy of the `policies` map and every key (modulus of `bits`
+    bits, `k = ⌈bits/8⌉` bytes) its constructor accepts: the block size `Encrypt`
+    uses is positive (the loop makes progress: no panic, no endless loop), is
+    within what the RSA scheme can take (RFC 8017 — so
+    `rsa.EncryptOAEP/EncryptPKCS1v15` never refuse a block), and it is the
+    `PlaintextBlockSize()` the channel pads to. -/
+theorem C15_capacity (row : AsymRow) (hr : row ∈ Gen.asymRows) (hs : row.scheme ≠ .none) (bits : Int)
+    (hacc : row.accept false 0 true bits = true) :
+    0 < sizeOfBits bits - row.encPad ∧
+    sizeOfBits bits - row.encPad ≤ Spec.capacity row.scheme (sizeOfBits bits) ∧ row.ptPad = row.encPad := by
   rcases rows_cases hr with rfl | rfl | rfl | rfl | rfl | rfl <;>
     simp [Gen.asymAes128_Sha256_RsaOaep, Gen.asymAes256_Sha256_RsaPss, Gen.asymBasic128Rsa15,
-      Gen.asymBasic256, Gen.asymBasic256Sha256, Gen.asymNone, Spec.capacity] at hacc hs ⊢ <;>
+      Gen.asymBasic256, Gen.asymBasic256Sha256, Gen.asymNone, Spec.capacity, sizeOfBits] at hacc hs ⊢ <;>
     omega
 
 /-- the constants used are the declared MinPadding constants of the package,
@@ -100,25 +102,28 @@ theorem C15_schemes (row : AsymRow) (hr : row ∈ Gen.asymRows) :
     Spec.scheme row.name = some row.scheme ∧ Spec.sigScheme row.name = some row.sigScheme := by
   rcases rows_cases hr with rfl | rfl | rfl | rfl | rfl | rfl <;> decide
 
-/-- The round trip for every policy, every accepted key size, every abstract
-    RSA of that size with the capacity of the policy's scheme, every plaintext. -/
+/-- The round trip for every policy, every accepted key, every abstract RSA of
+    that size with the capacity of the policy's scheme, every plaintext. -/
 theorem C15_roundtrip (row : AsymRow) (hr : row ∈ Gen.asymRows) (hs : row.scheme ≠ .none)
-    (R : BlockRSA) (hR : R.cap = Spec.capacity row.scheme R.k)
-    (hacc : row.accept false 0 true R.k = true) (rnd : Nat → Nat) (p : Bytes) :
+    (R : BlockRSA) (bits : Int) (hk : (R.k : Int) = sizeOfBits bits)
+    (hR : R.cap = Spec.capacity row.scheme R.k)
+    (hacc : row.accept false 0 true bits = true) (rnd : Nat → Nat) (p : Bytes) :
     ∃ c, encrypt true R rnd row.encPad p = .ok c ∧
       c.length = ceilDiv p.length ((R.k : Int) - row.ptPad).toNat * R.k ∧
       decrypt true R c = .ok p := by
-  obtain ⟨h1, h2, h3⟩ := C15_capacity row hr hs R.k hacc
+  obtain ⟨h1, h2, h3⟩ := C15_capacity row hr hs bits hacc
   rw [h3]
+  rw [← hk] at h1 h2
   exact C15_blocks R row.encPad h1 (by rw [hR]; exact h2) rnd p
 
-/-- Key-size acceptance in BYTES (`PublicKey.Size()`), local and remote key
-    independently: exactly `minKeyBytes ≤ size ≤ maxKeyBytes`, and these are
-    the Part 7 limits divided by 8. -/
-theorem C15_limits_bytes (row : AsymRow) (hr : row ∈ Gen.asymRows) (lo hi : Int)
+/-- KEY-SIZE LIMITS, full strength (after the fix that compares `N.BitLen()`):
+    for every bit length of the local and of the remote key, independently, the
+    constructor accepts exactly the Part 7 range `lo ≤ bits ≤ hi`; and the
+    declared byte constants are that range divided by 8. -/
+theorem C15_limits (row : AsymRow) (hr : row ∈ Gen.asymRows) (lo hi : Int)
     (hspec : Spec.keyBits row.name = some (lo, hi)) (hl : Bool) (l : Int) (hrm : Bool) (r : Int) :
     (row.accept hl l hrm r = true ↔
-      (hl = true → lo ≤ 8 * l ∧ 8 * l ≤ hi) ∧ (hrm = true → lo ≤ 8 * r ∧ 8 * r ≤ hi)) ∧
+      (hl = true → lo ≤ l ∧ l ≤ hi) ∧ (hrm = true → lo ≤ r ∧ r ≤ hi)) ∧
     8 * row.minKeyBytes = lo ∧ 8 * row.maxKeyBytes = hi := by
   rcases rows_cases hr with rfl | rfl | rfl | rfl | rfl | rfl <;>
     simp [Gen.asymAes128_Sha256_RsaOaep, Gen.asymAes256_Sha256_RsaPss, Gen.asymBasic128Rsa15,
@@ -128,45 +133,22 @@ theorem C15_limits_bytes (row : AsymRow) (hr : row ∈ Gen.asymRows) (lo hi : In
 
 /-- the constructor applied to a key of `bits` bits on both sides -/
 def acceptsBits (row : AsymRow) (bits : Int) : Bool :=
-  row.accept true (sizeOfBits bits) true (sizeOfBits bits)
+  row.accept true bits true bits
 
-/-- PARTIAL (guard: the modulus length is a whole number of bytes, which is
-    what every usual key generator produces): the constructor accepts exactly
-    the Part 7 range. -/
-theorem C15_limits_partial (row : AsymRow) (hr : row ∈ Gen.asymRows) (lo hi : Int)
-    (hspec : Spec.keyBits row.name = some (lo, hi)) (bits : Int) (h8 : bits % 8 = 0) :
-    acceptsBits row bits = true ↔ lo ≤ bits ∧ bits ≤ hi := by
-  have h := (C15_limits_bytes row hr lo hi hspec true (sizeOfBits bits) true (sizeOfBits bits)).1
-  have e : 8 * sizeOfBits bits = bits := by unfold sizeOfBits; omega
-  rw [acceptsBits, h, e]
-  simp
-
-/-- In general (any bit length) the comparison is made after rounding the
-    length up to whole bytes: the upper limit is exact, the lower one is not. -/
-theorem C15_limits_rounded (row : AsymRow) (hr : row ∈ Gen.asymRows) (lo hi : Int)
+/-- corollary for one key size on both sides: no `bits % 8 = 0` guard any more -/
+theorem C15_limits_both (row : AsymRow) (hr : row ∈ Gen.asymRows) (lo hi : Int)
     (hspec : Spec.keyBits row.name = some (lo, hi)) (bits : Int) :
-    acceptsBits row bits = true ↔ lo - 7 ≤ bits ∧ bits ≤ hi := by
-  have h := (C15_limits_bytes row hr lo hi hspec true (sizeOfBits bits) true (sizeOfBits bits)).1
-  have hlo : lo % 8 = 0 ∧ hi % 8 = 0 := by
-    rcases rows_cases hr with rfl | rfl | rfl | rfl | rfl | rfl <;>
-      simp [Gen.asymAes128_Sha256_RsaOaep, Gen.asymAes256_Sha256_RsaPss, Gen.asymBasic128Rsa15,
-        Gen.asymBasic256, Gen.asymBasic256Sha256, Gen.asymNone, Spec.keyBits] at hspec <;>
-      obtain ⟨rfl, rfl⟩ := hspec <;> decide
+    acceptsBits row bits = true ↔ lo ≤ bits ∧ bits ≤ hi := by
+  have h := (C15_limits row hr lo hi hspec true bits true bits).1
   rw [acceptsBits, h]
-  unfold sizeOfBits
   simp
-  omega
 
-/-- FINDING C15.min-key-bits-rounded-up: a 2041-bit key is below
-    MinAsymmetricKeyLength = 2048 of Basic256Sha256 and the constructor accepts
-    it (likewise 1017…1023 bits for the 1024-bit policies): the unguarded
-    statement `accepts ↔ lo ≤ bits ≤ hi` is false. -/
-theorem C15_finding_min_key_bits_rounded_up :
-    ¬ (∀ bits : Int, acceptsBits Gen.asymBasic256Sha256 bits = true ↔ 2048 ≤ bits ∧ bits ≤ 4096) ∧
-    acceptsBits Gen.asymBasic256Sha256 2041 = true ∧ acceptsBits Gen.asymBasic128Rsa15 1017 = true := by
-  refine ⟨fun h => ?_, by decide, by decide⟩
-  have := (h 2041).1 (by decide)
-  omega
+/-- was C15.min-key-bits-rounded-up: keys of 2041…2047 bits (1017…1023 for the
+    1024-bit policies) are now refused -/
+theorem C15_fixed_min_key_bits :
+    acceptsBits Gen.asymBasic256Sha256 2041 = false ∧ acceptsBits Gen.asymBasic256Sha256 2047 = false ∧
+    acceptsBits Gen.asymBasic128Rsa15 1017 = false ∧ acceptsBits Gen.asymBasic256Sha256 2048 = true := by
+  decide
 
 /-- Policy None takes any (or no) keys. -/
 theorem C15_none_accepts (hl : Bool) (l : Int) (hrm : Bool) (r : Int) :
